@@ -58,7 +58,7 @@ class ReplayFile:
         return self._call('truncate', size)
 
     def flush(self):
-        return None
+        return self._call('flush')
 
     def fileno(self):
         return self._call('fileno')
@@ -210,6 +210,7 @@ class ProcFS:
         p = (dir or '.') + '/%s%s-%04d%s' % (prefix, self.pname, self.tmp_counter, suffix)
         f = self.open(p, 'w+b' if 'b' in mode else 'w+')
         f.name = p
+        getattr(f, '_real', f).buffered = True          # Python's temporary files are buffered in user space
         return f
 
 
